@@ -1052,6 +1052,10 @@ func cmdConcurrent(args []string) {
 					}
 				}
 			}
+			// (with one or two processors the cold round is slow and interleaves little: the first sixty cover objects there)
+			if gmp := runtime.GOMAXPROCS(0); gmp < 4 && len(objs) > 60 {
+				objs = objs[:60]
+			}
 			ncover = len(objs)
 		}
 		objs = append(objs, pickObjects(rng, c, 40)...)
